@@ -160,8 +160,9 @@ def g_prepare(P, tier, tmp, seed, infra):
         files = sorted(_os.path.join(ddir, f) for f in _os.listdir(ddir) if f.startswith("zz_h_" + P["harness_tag"]) and f.endswith(".go"))
         if not files:
             continue
+        shared = sorted(_os.path.join(ddir, f) for f in _os.listdir(ddir) if f.startswith("zz_s_") and f.endswith(".go"))
         jobs.append({"name": "g_" + d, "moddir": moddir, "pkg": "vdesign/vh", "pkgdir": "vh", "pkgname": "vh", "harness_dir": "g",
-                     "files": files, "support": ["zz_stubs.go"], "extra_decl": ["zz_decl_g.go"], "extra_replay": ["zz_replay_g.go"],
+                     "files": files, "support": ["zz_stubs.go"] + shared, "extra_decl": ["zz_decl_g.go"], "extra_replay": ["zz_replay_g.go"],
                      "quick": P["quick"], "thorough": P["thorough"], "shards": P.get("shards", {})})
     return jobs
 
@@ -186,4 +187,31 @@ PROPS["C04"] = {
         "text": "Translation validation of the code the real generator emits for each catalogue design: the generated server handler (NewXHandler, DecodeXRequest, ValidateX*, NewXPayload, goa's ErrorEncoder/NewErrorResponse/MergeErrors and validators, all interpreted from SSA) is run on a fully symbolic wire request and the solver decides, for all values within the bounds, that the service endpoint runs iff an oracle written from the design (not derived from goa) accepts the request, that a rejected request gets exactly one 400 response whose error name is one of the violated rules, and that an accepted payload carries the wire values. Over designs the claim is only 'every design of the catalogue'.",
         "note": "Trusted: gosym executor, z3, the hand-written oracle of each catalogue design. Regenerated from /repo on every run in a scratch module (replace goa => /repo). Four genuine divergences are listed in known_findings.json.",
     },
+}
+
+PROPS["C02"] = {
+    "level": "translation_validation",
+    "prepare": g_prepare,
+    "jobs": [],
+    "designs": ["a1", "a2"],
+    "harness_tag": "c02",
+    "quick": r"^VerifC02_", "thorough": r"^VerifC02T?_",
+    "shards": {"a1_put": 4},
+    "bounds": {},
+    "assumptions": [],
+    "outside": [],
+    "claimed": False,
+}
+
+PROPS["C03"] = {
+    "level": "translation_validation",
+    "prepare": g_prepare,
+    "jobs": [],
+    "designs": ["a1", "a2"],
+    "harness_tag": "c03",
+    "quick": r"^VerifC03_", "thorough": r"^VerifC03T?_",
+    "bounds": {},
+    "assumptions": [],
+    "outside": [],
+    "claimed": False,
 }
